@@ -5,6 +5,7 @@ from __future__ import annotations
 import ast
 from typing import Dict, List, Optional, Set, Tuple
 
+from ..cfg import Node
 from ..core import Ctx, Report, snippet, where
 from ..model import Class, Func, own_nodes, src
 from ..pathsem import function_paths, resolve_local
@@ -77,11 +78,20 @@ def r16_1(ctx: Ctx, rep: Report) -> None:
     rep.instance()
     cfg = ctx.cfg(bp)
     saves = [n for n in cfg.live if n.kind == "stmt" and isinstance(n.ast, ast.Assign) and src(n.ast.value) in ("self.uuid", "self._uuid") and isinstance(n.ast.targets[0], ast.Name)]
+    saved_name = src(saves[0].ast.targets[0]) if saves else None
+    if not saves:
+        # saved as part of a tuple assignment: uuid, line = self.uuid, self.line
+        for n in cfg.live:
+            if n.kind == "stmt" and isinstance(n.ast, ast.Assign) and isinstance(n.ast.targets[0], ast.Tuple) and isinstance(n.ast.value, ast.Tuple) and len(n.ast.targets[0].elts) == len(n.ast.value.elts):
+                for a_, b_ in zip(n.ast.targets[0].elts, n.ast.value.elts):
+                    if isinstance(a_, ast.Name) and src(b_) in ("self.uuid", "self._uuid"):
+                        saves = [n]
+                        saved_name = a_.id
     relines = [n for n in cfg.live if n.kind == "stmt" and isinstance(n.ast, ast.Assign) and any(isinstance(t, ast.Attribute) and src(t) == "self.line" for t in n.ast.targets)]
     restores = [n for n in cfg.live if n.kind == "stmt" and isinstance(n.ast, ast.Assign) and any(isinstance(t, ast.Attribute) and src(t) in ("self.uuid", "self._uuid") for t in n.ast.targets)]
     if not relines:
         rep.ok("Base.platform setter", "does not re-parse the line", nontrivial=False, where=where(bp))
-    elif saves and restores and cfg.dominates(saves[0], relines[0]) and src(restores[0].ast.value) == src(saves[0].ast.targets[0]) and cfg.all_paths_pass(relines[0], cfg.exit, lambda n: n in restores, labels_avoid=("exc",)):
+    elif saves and restores and cfg.dominates(saves[0], relines[0]) and src(restores[0].ast.value) == saved_name and cfg.all_paths_pass(relines[0], cfg.exit, lambda n: n in restores, labels_avoid=("exc",)):
         rep.ok("Base.platform setter", "uuid saved before and restored after self.line = self.line", where=where(bp))
     else:
         rep.violation("Base.platform.setter", "uuid around re-parse", "the identifier is not saved and restored around the re-parse", where(bp))
@@ -438,7 +448,132 @@ def r16_8(ctx: Ctx, rep: Report) -> None:
     rep.floor(8, "in-place transformations")
 
 
+def nested_data_plumbing(ctx: Ctx, rep: Report, rid: str = "R16.13") -> None:
+    """A constructor that rebuilds a nested field object from the exported dict of that field (`Address(**srcaddr)`)
+    stores it in the attribute of the same name: data()['dstaddr'] must not end up in (or be replaced by) another field."""
+    rep.rule(rid)
+    n = 0
+    for cn in DATA_CLASSES:
+        cls = ctx.cls(cn)
+        init = cls.methods.get("__init__")
+        if init is None or init.node.args.kwarg is None:
+            continue
+        kw = init.node.args.kwarg.arg
+        env: Dict[str, ast.AST] = {}
+        for x in own_nodes(init.node):
+            if isinstance(x, ast.NamedExpr) and isinstance(x.target, ast.Name):
+                env[x.target.id] = x.value
+            elif isinstance(x, ast.Assign) and len(x.targets) == 1 and isinstance(x.targets[0], ast.Name):
+                env[x.targets[0].id] = x.value
+        for x in own_nodes(init.node):
+            if not (isinstance(x, ast.Assign) and len(x.targets) == 1 and isinstance(x.targets[0], ast.Attribute) and src(x.targets[0].value) == "self" and isinstance(x.value, ast.Call)):
+                continue
+            star = [k.value for k in x.value.keywords if k.arg is None]
+            if len(star) != 1 or not isinstance(star[0], ast.Name) or star[0].id not in env:
+                continue
+            keys = [c.args[0].value for c in ast.walk(env[star[0].id]) if isinstance(c, ast.Call) and isinstance(c.func, ast.Attribute) and c.func.attr == "get" and src(c.func.value) == kw and c.args and isinstance(c.args[0], ast.Constant)]
+            if len(keys) != 1:
+                continue
+            n += 1
+            rep.instance()
+            attr = x.targets[0].attr.lstrip("_")
+            if keys[0] == attr:
+                rep.ok(f"{init.qualname}: {snippet(x, 50)}", f"built from data key {keys[0]!r}", where=where(init, x))
+            else:
+                rep.violation(init.qualname, snippet(x), f"attribute {x.targets[0].attr} is rebuilt from the exported data of {keys[0]!r}: after copy() / re-initialisation one field carries the other field's members", where(init, x), inp="an ACE with different address groups in source and destination; ace.copy()")
+    rep.floor(2, "nested field objects rebuilt from their exported data")
+
+
+def empty_group_dispatch(ctx: Ctx, rep: Report, rid: str = "R16.12") -> None:
+    """The exported dict of a group is told from the exported dict of an ACE by the *presence* of its item list, not by
+    its truth: an emptied group exports items == [] and must come back as a group (copy(), re-initialisation)."""
+    from ..pathsem import feasible
+
+    rep.rule(rid)
+    f = ctx.func("AceGroup._dict_to_aceg")
+    rep.instance()
+    kw = f.node.args.kwarg.arg if f.node.args.kwarg else None
+    rep.require(kw is not None, "AceGroup._dict_to_aceg lost its **kwargs parameter")
+    ex = set(exported(ctx, ctx.cls("AceGroup")))
+    witness = {k: "" for k in ex}
+    witness["items"] = []
+    verdict = None
+    for p in function_paths(ctx.cfg(f)):
+        if p.raises:
+            continue
+        fz = feasible(p, ctx.folder, f, {kw: dict(witness)})
+        if fz is not True:
+            if fz is None:
+                verdict = verdict or ("unknown", p)
+            continue
+        r = deep_resolve(p.ret, p.env) if p.ret is not None else None
+        builds_group = isinstance(r, ast.Call) and src(r.func) in ("AceGroup", "self.__class__", "type(self)")
+        verdict = ("group", p) if builds_group else ("other", p)
+        break
+    if verdict is None or verdict[0] == "unknown":
+        rep.note(f"{rid} the group/ACE discriminator of _dict_to_aceg is not foldable for the empty-group witness (not judged)")
+        rep.ok("AceGroup._dict_to_aceg: empty group", "discriminator not foldable (not judged)", nontrivial=False, where=where(f))
+    elif verdict[0] == "group":
+        rep.ok("AceGroup._dict_to_aceg: empty group", "data with items == [] is rebuilt as a group", where=where(f))
+    else:
+        atoms = "; ".join(f"{snippet(t, 34)}={'T' if tr else 'F'}" for t, tr in verdict[1].atoms)
+        rep.violation("AceGroup._dict_to_aceg", f"items == [] takes the path [{atoms}]", "the exported data of an emptied group is handed to the ACE builder: Acl.copy() / Acl(**acl.data()) raise (or build a wrong item) when the ACL holds an empty group", where(f), inp="acl with group_by; acl.items[0].items = []; acl.copy()")
+
+
+def items_before_line(ctx: Ctx, rep: Report, rid: str = "R16.11") -> None:
+    """A container rebuilt from its own data() (copy, re-initialisation) must take its content from `items` (the exported
+    member objects: group members, identifiers, notes) and parse `line` only when no items were given: the text is a lossy
+    view (address-group members are not in it)."""
+    rep.rule(rid)
+    n = 0
+    for cn in ("AceGroup", "Acl", "AddrGroup"):
+        cls = ctx.cls(cn)
+        ex = exported(ctx, cls)
+        init = cls.methods.get("__init__")
+        if init is None or not {"line", "items"} <= set(ex):
+            continue
+        n += 1
+        rep.instance()
+        cfg = ctx.cfg(init)
+
+        def stores(node: Node, attr: str) -> bool:
+            if node.kind == "stmt" and isinstance(node.ast, ast.Assign):
+                return any(isinstance(t, ast.Attribute) and src(t.value) == "self" and t.attr == attr for t in node.ast.targets)
+            return False
+
+        bad = None
+        saw_line = False
+        for p in function_paths(cfg):
+            if p.raises:
+                continue
+            line_nodes = [nd for nd, _ in p.nodes if stores(nd, "line")]
+            if not line_nodes:
+                continue
+            saw_line = True
+            # items must have been found absent/empty on this path
+            items_false = False
+            for t, truth in p.atoms:
+                rt = deep_resolve(t, p.env)
+                if not truth and ("'items'" in src(rt) or '"items"' in src(rt) or src(t) == "items"):
+                    items_false = True
+            if not items_false:
+                bad = (p, line_nodes[0])
+                break
+        if bad is not None:
+            p, ln = bad
+            atoms = "; ".join(f"{snippet(t, 30)}={'T' if tr else 'F'}" for t, tr in p.atoms) or "unconditional"
+            rep.violation(init.qualname, f"{snippet(ln.ast)} on path [{atoms}]", f"{cn} parses the text although items may have been given: a copy built from data() (which carries both) loses what only the item objects hold (address-group members, nested identifiers and notes)", where(init, ln.ast), inp=f"{cn} with an ACE whose address group has members; .copy()")
+        elif saw_line:
+            rep.ok(f"{init.qualname}: line parsed only without items", "every path that assigns self.line has found `items` empty", where=where(init))
+        else:
+            rep.violation(init.qualname, "self.line = ...", "the constructor never parses the line", where(init))
+    rep.floor(3, "containers that export both line and items")
+
+
 def run(ctx: Ctx, rep: Report, tier: str) -> None:
+    items_before_line(ctx, rep)
+    empty_group_dispatch(ctx, rep)
+    nested_data_plumbing(ctx, rep)
     from .c15 import adoption_rule
     from .c19 import r19_2, r19_3
 
